@@ -383,7 +383,7 @@ func c05Race(w *World, run *Run, sc c05Scenario, fail func(sig, format string, a
 		gate := make(chan struct{})
 		w.mu.Lock()
 		w.OnHook = func(h HookRec) {
-			if h.Point != "deploy.lb.updated" {
+			if h.Point != "deploy.healthy" {
 				return
 			}
 			mu.Lock()
